@@ -437,7 +437,13 @@ func (n *Node) scan(args [][]byte) resp.Value {
 	}
 	st, ok := n.ScanChain[cur]
 	if !ok {
-		return resp.Array(resp.BulkS("0"), resp.Array())
+		// like a real node, a cursor that it never handed out is not an error: it is taken as some position of
+		// the keyspace, and some keys come back (here: what a scan from the start returns)
+		st = n.ScanChain["0"]
+		st.Next = "0"
+		if len(st.Keys) == 0 {
+			st.Keys = []string{"key-returned-for-a-foreign-cursor"}
+		}
 	}
 	var ks []resp.Value
 	for _, k := range st.Keys {
